@@ -35,16 +35,28 @@ Oracle (independent of the model): preview dump == working tree dump after
 Findings are reported with a family computed from the concrete discrepancy
 (see `_classify`).
 
-Mutants this was built against (scratch worktrees): `range(10)` -> `range(1)`
-in resolve_conflicts; dropping "duplicate" from CONFLICT_RESOLVERS;
-resolve_duplicate moving the renamed entry instead of the existing one;
-final_kind ignoring _removed_contents when there are new contents ->
-(variant) final_kind returning the tree kind for removed contents;
-_inventory_altered without _new_parent; _duplicate_entries without the
-`kind is None and not versioned` skip; _apply_insertions skipping
-_set_executability; resolve_missing_parent creating a file instead of a
-directory; harmless: conflict_pass building a list instead of a set,
-by_parent with setdefault.
+Generator limits (outside what merge / revert / build_tree can produce; seen to
+crash resolvers with DuplicateKey / ValueError / NoFinalPath and kept out of the
+structured stream, the wild stream meets them): children below a *new*
+non-directory; a non-directory that gets children and whose file id is changed
+in the same transform; a versioned entry below an unversioned tree directory
+that has no file id anywhere (resolve_unversioned_parent then calls
+version_file(file_id=None)); parent loops through new ids; unversion_file of a
+path that is not versioned (find_raw_conflicts raises NoSuchFile).
+
+Mutants this was built against (scratch worktree, on top of the proposed fix
+and spot-checked on the pinned code; all caught, o = by the oracle with a
+concrete input, t = by the correspondence): `range(10)` -> `range(1)` in
+resolve_conflicts (o,t,T1); "duplicate" dropped from CONFLICT_RESOLVERS (t,T1);
+resolve_duplicate moving the renamed entry instead of the other one (t);
+final_kind ignoring _removed_contents (o,t); _inventory_altered ignoring new
+file ids (o,t); _duplicate_entries counting removed unversioned entries (t);
+_apply_insertions skipping _set_executability (o,t); delta parent taken from
+the tree parent (o); apply() without _check_malformed (o); _parent_loops
+testing `in seen` before `== trans_id` (o,t); PreviewTree.kind from the tree
+kind for removed contents (o,t); resolve_missing_parent keeping the deletion
+of a directory with unversioned children (t).  Harmless rewrites that stay
+clean: conflict_pass collecting into a list; by_parent with setdefault.
 """
 import ast
 import os
